@@ -25,12 +25,12 @@ def sm(pid, text, frame=False):
     DESC[pid] = dict(technique=SM + (FR if frame else ""), design_ref="DESIGN.md section 4 " + pid, text=text, note=NOTE_SM)
 
 sm("C03", "Capacity as a TLC invariant (CapInv, CapObs) over all growth actions - Push batches, Insert, Transfer-into, Marshal-into - interleaved with Pop/Remove/Reset, for capacities 1-4 and lengths up to 4, both handles of a Transfer; every transition / path to depth 2-3 / random walk replayed on real Stacks with Len, Cap, Avail, IsFull and the raw slots compared after each step; random boundary-seeking histories validated as traces.")
-sm("C08", "Every method taking an int x every index in -(L+1)..L+1 plus MinInt/MaxInt x lengths 0-4 x the four index-option sets enumerated by TLC (IdxMode=all) and replayed with a post-call re-validation of IsInit, Kind, Len, every Index, the configuration record and the raw slots; every method with an any / ...any / Operator parameter (found by reflection) x 38 awkward Go values, each followed by a usability probe, validated by Frame.tla's AwkwardRule (no panic, receiver still usable).", frame=True)
-sm("C09", "ReadOnlyFrame checked by TLC on every enabled transition of the state machine started read-only (all call families); tables and traces replayed on the real Stack; every exported method of Stack and Condition (reflection) called on read-only receivers singly and in random sequences of 2-4, each event validated by Frame.tla's ReadOnlyRule against a deep VerifDump snapshot; afterwards the flag is cleared (snapshot must equal the one at flag-set time) and a setter must take effect again.", frame=True)
-sm("C13", "NoNestPush and option/content independence checked by TLC; push batches over {nil, leaf, native Stack, alias, pointer-to-alias, Condition} interleaved with set/clear/toggle of no-nesting on every kind replayed on real Stacks (content, CanNest, IsNesting, raw option bits).")
+sm("C08", "Every method taking an int x every index in -(L+1)..L+1 plus MinInt/MaxInt x lengths 0-4 x the four index-option sets enumerated by TLC (IdxMode=all) and replayed with a post-call re-validation of IsInit, Kind, Len, every Index, the configuration record and the raw slots; every method with an any / ...any / Operator parameter (found by reflection) x 38 awkward Go values, each followed by a usability probe, validated by Frame.tla's AwkwardRule (no panic, receiver still usable); receivers and arguments include whole structures with awkward LEAVES (nil pointers in slices, two struct types differing in the visibility of an embedded field, maps with different key sets, a NaN-keyed map). Traverse case families (every path of length 0-3 on all depth-2 trees, random deeper ones): an index that addresses nothing makes Traverse report failure, a failed descent is never resumed on an outer level.", frame=True)
+sm("C09", "ReadOnlyFrame checked by TLC on every enabled transition of the state machine started read-only (all call families); tables and traces replayed on the real Stack; every exported method of Stack and Condition (reflection) called on read-only receivers singly and in random sequences of 2-4, each event validated by Frame.tla's ReadOnlyRule against a deep VerifDump snapshot; afterwards the flag is cleared (snapshot must equal the one at flag-set time) and a setter must take effect again. Every event also records what a SECOND handle to the same instance shows afterwards (Condition.Init may only replace the instance behind the handle it was called on); read-only instances are additionally handed over as arguments and nested inside writable parents.", frame=True)
+sm("C13", "NoNestPush and option/content independence checked by TLC; push batches over {nil, leaf, native Stack, alias, pointer-to-alias, Condition, Condition holding a Stack} (each batch handed over as one slice that must come back unmodified) interleaved with set/clear/toggle of no-nesting on every kind replayed on real Stacks (content, CanNest, IsNesting, raw option bits); Len / IsNesting of every node of random trees against Measure (spec/Trees.tla). Every harness process first offers typed nil pointers, zero aliases and function-local LOOK-ALIKES of the alias types (same printed name, no Stack) to the converters, so that anything the package remembers about types has seen the worst before a case runs.")
 sm("C14", "PolicyDecides checked by TLC over all batches of length 1-3 against every accept-set (8 subsets) with and without capacity; the installed Go closure records its consult log, which is compared (count and order) together with content and Err() after every step. ClosuresDecide over every install / remove sequence of the validity, presentation, equality, marshal, unmarshal and COMPARISON closures on all five kinds: Valid(), the source of String() / IsEqual / Unmarshal, Marshal's result and Less(0,1) / Less(1,0) / Less(0,0) are compared after every step; without a comparison closure Less must be the built-in byte order of the element texts of the CURRENT content (ListOps!LessL) - the instance that exposed the SetLessFunc() snapshot defect repaired by dbc1c3b.")
 sm("C15", "TransferFrame checked by TLC over a two-handle state machine (source length 0-4 with nil elements, LIFO/FIFO; destination length 0-4, capacity none or 1-5, read-only / zero / no-nesting destinations; destination given as native, alias, pointer or foreign value); both handles observed in full after every replayed step.")
-sm("C17", "Lifecycle (zero / live / freed) in the state machine: Inert checked by TLC on every transition from the dead state, Free and Reset semantics; every exported method (reflection) called on zero and freed Stacks and Conditions with plain and awkward arguments, each event validated by Frame.tla's InertRule (no panic, no resurrection except Marshal/Init, zero results except the documented sentinels).", frame=True)
+sm("C17", "Lifecycle (zero / live / freed) in the state machine: Inert checked by TLC on every transition from the dead state, Free and Reset semantics; every exported method (reflection) called on zero and freed Stacks and Conditions with plain and awkward arguments, each event validated by Frame.tla's InertRule (no panic, no resurrection except Marshal/Init, zero results except the documented sentinels, Valid / IsEqual REPORT an error) and FreeRule (the handle becomes zero unless read-only; every other handle of the instance taken before the call can still be looked at and used).", frame=True)
 sm("C18", "OptIndependence and the FIFO latch checked by TLC; exhaustive sequences of {set, clear, toggle} x 8 options to depth 3 (quick) / 4 (thorough) replayed with raw option bits (verif hook) and getters compared; ID, category, delimiter (LIST only), symbol (non-LIST only), encapsulation pairs (duplicate characters refused) in a second instance; log levels (names, constants, raw integers, all / none) and the auxiliary map (never set / fresh / the caller's populated map / the caller's EMPTY map, each kept by reference) and the logger selection in further instances; random mixed sequences validated as traces.")
 
 sm("C06", "Condition state machine (spec/CondCore.tla, CondMC.tla): TLC checks on every enabled transition that accepted arguments are stored and rejected ones (nil / empty-text / empty-context operators, nil and empty-string expressions, Stack expressions under no-nesting, any expression while Err() is set) leave keyword / operator / expression unchanged, that Valid() is nil exactly under the stated conditions and that String() is empty iff Valid() fails; every transition, all paths to depth 2-3 from Cond(...) and Init(), and random walks are replayed on real Conditions with Keyword / Operator / Expression / Valid / the exact String() text compared; random histories are validated by CondTrace.tla.")
@@ -43,15 +43,15 @@ DESC["C02"] = dict(technique=CASES + " (spec/Render.tla, Gen_Render.tla, Check_R
    note="Exhaustive only within the stated families; whitespace other than SP/TAB, nil / unprintable elements and cyclic structures are outside the stated domain; trusts the tree concretiser and the rune<->token table of the harness, TLC and CommunityModules.")
 
 DESC["C07"] = dict(technique=CASES + " (spec/Traverse.tla, Gen_Traverse.tla, Check_Traverse.tla)", design_ref="DESIGN.md section 4 C07",
-   text="TraverseSpec (recursive) and IndexDescent (the statement's stepwise wording) are two TLA+ definitions that TLC proves equal on every generated (tree, path) pair; all trees of depth <= 3 / width <= 2-3 with nil slots, per-node index options, aliases and Conditions x all paths of length 0..3-5 over -1..width+1 (10^5-10^7 pairs) are replayed on the real Traverse, whose returned value is mapped to a structural address by object identity; random deeper trees and paths are validated by Check_Traverse.tla.",
+   text="TraverseSpec (recursive) and IndexDescent (the statement's stepwise wording) are two TLA+ definitions that TLC proves equal on every generated (tree, path) pair; all trees of depth <= 3 / width <= 2-3 with nil slots, per-node index options, aliases and Conditions x all paths of length 0..3-5 over -1..width+1 (10^5-10^7 pairs) are replayed on the real Traverse, whose returned value is mapped to a structural address by object identity; random deeper trees and paths are validated by Check_Traverse.tla. Besides the structural address the harness compares the Go TYPE of the returned value with the type the node was stored as (an alias stays an alias), and every stack may carry no-nesting switched on after its elements went in (no effect on what is reachable).",
    note="Exhaustive only within the stated shapes; result identity is established through Addr() of nested Stacks / Conditions and unique leaf texts assigned by the harness.")
 
 DESC["C19"] = dict(technique=CASES + " (spec/Defrag.tla: DefragSpec = the property, DefragAsBuilt = transcription used only to recognise the listed known finding)", design_ref="DESIGN.md section 4 C19",
-   text="Exhaustive: every nil / non-nil pattern of length 0..8 (quick) / 0..12 (thorough) x 4 scan limits x 4 index-option sets x nesting position (top, in a Stack, in a Condition, in alias forms, and two levels down through a Stack / a Condition / both), inside the property's domain; TLC checks the laws of DefragSpec and emits the expected tree; the real Defrag's resulting tree (raw slots through the verif hook) and Err() are compared. Deviations that equal the DefragAsBuilt prediction on an input of the listed class are the open known finding (KNOWN-FINDING, exit 0); anything else is a VIOLATION. Random longer patterns are classified by Check_Defrag.tla.",
+   text="Exhaustive: every nil / non-nil pattern of length 0..8 (quick) / 0..12 (thorough) x 4 scan limits x 4 index-option sets x nesting position (top, in a Stack, in a Condition, in alias forms, and two levels down through a Stack / a Condition / both), inside the property's domain; TLC checks the laws of DefragSpec and emits the expected tree; the real Defrag's resulting tree (raw slots through the verif hook) and Err() are compared. Deviations that equal the DefragAsBuilt prediction on an input of the listed class are the open known finding (KNOWN-FINDING, exit 0); anything else is a VIOLATION. Further families: three sorts of slot (value, nil, TYPED nil pointer - an element like any other) and an error recorded on the root beforehand (Err() is nil afterwards unless the Stack had no nil element and was left untouched). Random longer patterns are classified by Check_Defrag.tla.",
    note="The package's Defrag is defective and cannot be repaired under the constraints (an existing test pins a wrong outcome); the check therefore passes with a KNOWN-FINDING line and still reports any behaviour that differs from both the property and the listed as-built outcome.")
 
 DESC["C20"] = dict(technique=CASES + " (spec/Reveal.tla: the specification is a SET of allowed results, membership is checked)", design_ref="DESIGN.md section 4 C20",
-   text="Reach(t), the closure of the single allowed rewrite (a parenthetical child - Stack or Condition - protects its wrapper), is computed by TLC for ~17k (quick) trees incl. a family with forward / negative index options on the receiver and on nested stacks; for every member TLC proves leaf-sequence preservation, non-growing depth, survival of parenthetical and NOT stacks and equality of the fully-unwrapped normal form; the real Reveal, executed under a watchdog on trees with mutex-enabled nodes, must return a member (a hang is a deadlock violation). Random deeper trees are validated by Check_Reveal.tla.",
+   text="Reach(t), the closure of the single allowed rewrite (a parenthetical child - Stack or Condition - protects its wrapper), is computed by TLC for ~17k (quick) trees incl. a family with forward / negative index options on the receiver and on nested stacks; for every member TLC proves leaf-sequence preservation, non-growing depth, survival of parenthetical and NOT stacks and equality of the fully-unwrapped normal form; the real Reveal, executed under a watchdog on trees with mutex-enabled nodes, must return a member (a hang is a deadlock violation); afterwards no node may report a held mutex or lock stamp, and a second Reveal must return and again yield a member. Random deeper trees are validated by Check_Reveal.tla.",
    note="The property constrains what Reveal may do, not how much it must do: a Reveal that unwraps less is accepted. Exhaustive only within the stated families.")
 
 DESC["C04"] = dict(technique=CASES + " (spec/Codec.tla, Gen_Codec.tla, Check_Codec.tla)", design_ref="DESIGN.md section 4 C04",
@@ -71,12 +71,12 @@ DESC["C12"] = dict(technique=CASES + "; alias value classes S/A/P in the Stackag
 
 DESC["C10"] = dict(technique="TLC model checking of spec/Concurrent.tla (all schedules at lock-acquisition granularity, Linearizable / CapRespected / OnlyUserValues) + every enumerated schedule forced on real goroutines through the verif lock hook + linearisation search over the recorded histories by spec/LinTrace.tla + sequential runs with sampler goroutines reading Len() throughout, judged by spec/Watch.tla (what an unlocked reader may see during one critical section) + free-running rounds in a -race build with race reports classified by spec/RaceClass.tla",
    design_ref="DESIGN.md section 4 C10 and section 11.2",
-   text="Concurrent.tla models each mutator as an unlocked wrapper guard followed by an atomic critical section; TLC enumerates every schedule of 2 goroutines x 1 call (all 8 mutators, lengths 0-3, LIFO/FIFO, capacity none/2; exhaustive), 2x2 and 3x1 (sampled in quick, exhaustive in thorough), proves each outcome linearisable, and emits (program, schedule, predicted outcome). The harness parks real goroutines before each call and before mutex.Lock(), so each schedule runs deterministically; LinTrace.tla searches for a sequential explanation of every recorded history; the driver additionally checks per segment that content changes only between lock.held and lock.release and that the lock bookkeeping is written under the lock. Because the wrappers decide emptiness BEFORE they lock, atomicity also needs that no critical section shows the stack shorter or longer than both its ends: thousands of sequential mutator runs are executed while three goroutines sample Len(), and Watch.tla accepts a run iff returns and final content follow ListOps!Step and every sampled length lies between the specified lengths before and after the call (this stage catches the FIFO pop() transient repaired by 89d56d0). Free-running 2-5-goroutine rounds with a spin-aligned start in a -race build are judged by LinTrace.tla as well; race reports are classified by RaceClass.tla.",
-   note="The 'no data race' clause rests on the Go race detector over spec-derived workloads (timing dependent: it can add findings, its silence proves nothing). One open known finding: unlocked pre-check reads in the wrappers and in lock() race with writes inside critical sections (KNOWN-FINDING); any other report, any non-linearisable history, panic, deadlock, capacity overflow or configuration-as-element is a VIOLATION.")
+   text="Concurrent.tla models each mutator as an unlocked wrapper guard followed by an atomic critical section; TLC enumerates every schedule of 2 goroutines x 1 call (all 8 mutators, lengths 0-3, LIFO/FIFO, capacity none/2; exhaustive), 2x2 and 3x1 (sampled in quick, exhaustive in thorough), proves each outcome linearisable, and emits (program, schedule, predicted outcome). The harness parks real goroutines before each call and before mutex.Lock(), so each schedule runs deterministically; LinTrace.tla searches for a sequential explanation of every recorded history; the driver additionally checks per segment that content changes only between lock.held and lock.release and that the lock bookkeeping is written under the lock. Because the wrappers decide emptiness BEFORE they lock, atomicity also needs that no critical section shows the stack shorter or longer than both its ends: thousands of sequential mutator runs are executed while three goroutines sample Len(), and Watch.tla accepts a run iff returns and final content follow ListOps!Step and every sampled length lies between the specified lengths before and after the call (this stage catches the FIFO pop() transient repaired by 89d56d0). A second family has a push policy installed (approving a and b, rejecting c): the closure is consulted, and a rejection recorded, INSIDE Push's critical section - one lock acquisition per call. Free-running 2-5-goroutine rounds with a spin-aligned start in a -race build are judged by LinTrace.tla as well; race reports are classified by RaceClass.tla.",
+   note="The 'no data race' clause rests on the Go race detector over spec-derived workloads (timing dependent: it can add findings, its silence proves nothing). One open known finding: unlocked pre-check reads in the wrappers and in lock() race with writes inside critical sections (KNOWN-FINDING); any other report, any non-linearisable history, panic, deadlock, capacity overflow or configuration-as-element is a VIOLATION; so is a fatal Go runtime error raised inside the package's lock handling (sync: unlock of unlocked mutex) that kills the free-running driver in two independent runs.")
 
 DESC["C11"] = dict(technique="reflection sweep over every non-mutating method validated by spec/Frame.tla (QueryRule) + parallel query answers recorded from 12-16 goroutines in a -race build and validated answer by answer by spec/Check_Queries.tla (Render, Lookup, TraverseSpec, UnmarshalSpec, LessSpec of spec/Order.tla) + race reports classified by spec/RaceClass.tla (MODE=queries: none allowed)",
    design_ref="DESIGN.md section 4 C11",
-   text="Purity: each declared query (Frame.tla lists the mutators; everything else the reflection enumeration finds is a query candidate) is called on 17 receiver kinds, writable and read-only, with a deep VerifDump snapshot before and after, a repeat call, and a scribble over the returned Unmarshal container. Concurrency: on random shared structures with mutex-enabled nodes (half of them read-only) 12-16 goroutines issue 34 queries (8 of them Less(i,j) on random index pairs) in random order three times; the isolated answers and every goroutine's answers must equal the answers the TLA+ specification computes for that tree; the run is a -race build and no race report is accepted.",
+   text="Purity: each declared query (Frame.tla lists the mutators; everything else the reflection enumeration finds is a query candidate) is called on 17 receiver kinds, writable and read-only, with a deep VerifDump snapshot before and after, a repeat call, and a scribble over the returned Unmarshal container. Concurrency: on random shared structures with mutex-enabled nodes (half of them read-only) (a third of them with a rejecting equality closure, whose verdict every IsEqual must return) 12-16 goroutines issue 34 queries (8 of them Less(i,j) on random index pairs) in random order three times; the isolated answers and every goroutine's answers must equal the answers the TLA+ specification computes for that tree; the run is a -race build and no race report is accepted.",
    note="The absence-of-race clause rests on the Go race detector (timing dependent). Less() answers are judged by Order.tla (byte order of the element texts; alias forms without a String method have no text).")
 
 def main():
